@@ -224,6 +224,8 @@ const TOKENS: &[&str] = &[
     "18446744073709551615", "9223372036854775807", "-9223372036854775808", "9223372036854775808",
     "340282366920938463463374607431768211455", "170141183460469231731687303715884105727",
     "-170141183460469231731687303715884105728", "170141183460469231731687303715884105728",
+    "-340282366920938463463374607431768211456", "-999999999999999999999999999999999999999999", "99999999999999999999999999999999999999999",
+    "¬", "À", "\u{3000}", "ì",
     "127", "128", "-0", "0255", "00000256", "-00128", "000000000000000000000000000000000000000001",
     "à", "\u{a0}", "Å", "É", "Ê", "\u{8d}", "😅", "\u{2028}", "\u{85}", "ᄀ", "\u{ac}",
 ];
@@ -437,7 +439,7 @@ impl World for ParserWorld {
         let pieces = rng.range(0, if thorough { 12 } else { 8 });
         for _ in 0..pieces {
             let t = *rng.pick(&toks);
-            if text.chars().count() + t.chars().count() > max_chars && !(t.len() > 16 && text.is_empty()) {
+            if text.chars().count() + t.chars().count() > max_chars && !(t.len() > 16 && text.chars().count() <= 3) {
                 continue;
             }
             text.push_str(t);
